@@ -199,7 +199,12 @@ pub fn encode_with(source: &[u8], cfg: &Cfg, comp: Comp, hash_len: usize, metada
         source_checksum: gen::blake2b512(source),
         source_total_size: source.len() as u64,
         params: Some(params_of(cfg, hash_len)),
-        compression: Some(comp_pair(comp)),
+        // the recorded level is informational: no decompressor reads it, the schema gives it no
+        // range. Other tools may record 0 (proto3 default), or their own scale
+        compression: Some(match comp_pair(comp) {
+            (0, l) => (0, l),
+            (a, l) => (a, if gen::chance(1, 6) { *gen::t(|t| t.pick(&[0u32, 0, 12, 23, 100, 4_000_000_000])) } else { l }),
+        }),
         rebuild_order: order,
         descriptors,
         metadata: metadata.clone(),
